@@ -128,8 +128,16 @@ def run(ctx):
                 td = TimingData(sim, chart)
                 uses = rule_uses_chart("SSC", version, "SSC", st)
                 n += 1
-                if (Fraction(td.bpms[0].value) == 200) != (uses and st[0] == 2) and not (uses and st[0] != 2 and len(td.bpms) == 0):
-                    res.violation({"sim": "SSC", "version": version, "eleven": "".join(map(str, st))}, "source rule violated in the full 3^11 enumeration"); break
+                got = [Fraction(e.value) for e in td.bpms]
+                exp = ([Fraction(200)] if st[0] == 2 else []) if uses else [Fraction(100)]
+                stops = [Fraction(e.value) for e in td.stops]
+                exp_stops = ([Fraction(1, 5)] if st[1] == 2 else []) if uses else [Fraction(1, 10)]
+                if got != exp or stops != exp_stops:
+                    res.violation({"sim": "SSC", "version": version, "eleven": "".join(map(str, st))}, "source rule violated in the full 3^11 enumeration",
+                                  impl=[str(got), str(stops)], expected=[str(exp), str(exp_stops)]); break
+            else:
+                continue
+            break
         res.stats["full_3^11_x_3_versions"] = n; res.exhaustive = True
         res.evaluations += n
     resp = ctx.lean.eval_sharded(reqs)
